@@ -154,3 +154,76 @@ Definition dbal_subsample_prog (n_thetas max_combos : Z) : prog req ans (result 
   let c := binom3 n_thetas in
   if c =? 0 then Ret (Err 4)
   else Draw (RChoiceN c (Z.min c max_combos) false) (fun a => Ret (Ok a)).
+
+(* ---------------------------------------------------------------- vocabulary of the source translations
+   (harness/src_functions.py C18_* -> Generated/SrcRand.v, by harness/py2gal.py with cfg["monad"]).
+   A translated function denotes a program of the SAME resumption type whose output is a `result`
+   (a Python exception = the program ends with Ret (Err tag)).  The only way such a term can obtain
+   randomness is a [Draw]: the primitives below that contain one are the calls on the function's OWN
+   generator argument; no other primitive of a configuration contains a request. *)
+Definition rprog (Out : Type) : Type := prog req ans (result Out).
+Definition rp_ret {A : Type} (a : A) : rprog A := Ret (Ok a).
+Definition rp_raise {A : Type} (tag : Z) : rprog A := Ret (Err tag).
+Definition rp_bind {A B : Type} (p : rprog A) (f : A -> rprog B) : rprog B :=
+  bind p (fun r => match r with Ok a => f a | Err t => Ret (Err t) end).
+Notation "'dop' x <- e ; k" := (rp_bind e (fun x => k))
+  (at level 200, x pattern, e at level 100, k at level 200, right associativity).
+(* a for loop: the state is threaded left to right; an exception or a request in the body is the loop's *)
+Fixpoint rp_fold {S A : Type} (f : S -> A -> rprog S) (l : list A) (s : S) : rprog S :=
+  match l with
+  | [] => rp_ret s
+  | a :: r => dop s' <- f s a; rp_fold f r s'
+  end.
+Definition rp_unwrap {A : Type} (o : option A) : rprog A :=
+  match o with Some a => rp_ret a | None => rp_raise 99 end.
+(* a library call that may raise but makes no request *)
+Definition rp_lift {A : Type} (r : result A) : rprog A := Ret r.
+
+(* the calls on the generator argument *)
+Definition rp_draw (r : req) : rprog ans := Draw r (fun a => Ret (Ok a)).
+(* rng.random(): the answer [z] stands for the double with order key z *)
+Definition rp_random : rprog Z := Draw RRandom (fun a => Ret (Ok (hd 0 a))).
+(* rng.choice(<array>, k, replace=False) *)
+Definition rp_choice (pool : list Z) (k : Z) : rprog (list Z) := rp_draw (RChoice pool k false).
+(* rng.choice(<int n>, size=k, replace=False) *)
+Definition rp_choice_n (n k : Z) : rprog (list Z) := rp_draw (RChoiceN n k false).
+
+(* boolean selection vectors over the rows 0..n-1 *)
+(* np.zeros(n, dtype=bool) *)
+Definition mask_zeros (n : Z) : list bool := repeat false (Z.to_nat n).
+(* sel[idx] = True with an integer index array: every index must lie in -n..n-1 (otherwise IndexError, tag 98,
+   and nothing is written); a negative index counts from the end; repeated indices are harmless *)
+Definition wrap_index (n i : Z) : Z := if i <? 0 then i + n else i.
+Definition mask_set_true (sel : list bool) (idx : list Z) : result (list bool) :=
+  let n := zlen sel in
+  if forallb (fun i => (- n <=? i) && (i <? n)) idx
+  then Ok (map (fun jb : Z * bool => snd jb || memZ (fst jb) (map (wrap_index n) idx)) (combine (zrange n) sel))
+  else Err 98.
+(* a plate as the hold-out split sees it: (np.arange(screen.size)[plate.selection_vector], plate.is_observed) *)
+Definition plate_t : Type := (list Z * bool)%type.
+
+(* representation maps of the linking theorems (Proofs/C18Source.v) *)
+(* the hand-written programs return a plain value; the translation returns Ok of it *)
+Definition lift_ok {A : Type} (p : prog req ans A) : rprog A := bind p (fun a => Ret (Ok a)).
+(* the selection vector whose true positions are [held] *)
+Definition mask_of (size : Z) (held : list Z) : list bool := map (fun i => memZ i held) (zrange size).
+(* what both hold-out functions do after the draws: the two Screen(...) constructions, for ANY meaning
+   [mk_keep] / [mk_hold] of those constructor calls as functions of the screen and the selection vector *)
+Definition holdout_finish {Scr : Type} (mk_keep mk_hold : Scr -> list bool -> result Scr) (screen : Scr) (sel : list bool)
+  : result (Scr * Scr) :=
+  dor k <- mk_keep screen sel; dor h <- mk_hold screen sel; Ok (k, h).
+
+(* equality of programs up to the continuations' values on the answers [okA] admits (no functional
+   extensionality is assumed): same requests in the same order, same outputs *)
+Inductive prog_eq_on {Req Ans Out : Type} (okA : Req -> Ans -> bool) : prog Req Ans Out -> prog Req Ans Out -> Prop :=
+| peq_ret : forall o, prog_eq_on okA (Ret o) (Ret o)
+| peq_draw : forall r k k', (forall a, okA r a = true -> prog_eq_on okA (k a) (k' a)) ->
+                            prog_eq_on okA (Draw r k) (Draw r k').
+Definition any_answer {Req Ans : Type} (_ : Req) (_ : Ans) : bool := true.
+(* every answer of a run satisfied the contract of its request (generic form of [answers_ok]) *)
+Fixpoint all_ok {Req Ans : Type} (okA : Req -> Ans -> bool) (rs : list Req) (al : list Ans) : bool :=
+  match rs, al with
+  | [], _ => true
+  | r :: rs', a :: al' => okA r a && all_ok okA rs' al'
+  | _ :: _, [] => false
+  end.
